@@ -726,17 +726,15 @@ class CSSMatch(_DocumentNav):
         el: bs4.Tag,
         attr: str,
         prefix: str | None
-    ) -> str | Sequence[str] | None:
-        """Match attribute name and return value if it exists."""
+    ) -> Iterator[str | Sequence[str]]:
+        """Match attribute name and yield the value of each attribute it designates (`*|a` may designate several)."""
 
-        value = None
         if self.supports_namespaces():
-            value = None
             # If we have not defined namespaces, we can't very well find them, so don't bother trying.
             if prefix:
                 ns = self.namespaces.get(prefix)
                 if ns is None and prefix != '*':
-                    return None
+                    return
             else:
                 ns = None
 
@@ -750,8 +748,7 @@ class CSSMatch(_DocumentNav):
                 # `*|a` also matches an attribute `a` that has no namespace.
                 if (ns is None and prefix != '*') or (prefix == '*' and namespace is None):
                     if (self.is_xml and attr == k) or (not self.is_xml and util.lower(attr) == util.lower(k)):
-                        value = v
-                        break
+                        yield v
                     # Coverage is not finding this even though it is executed.
                     # Adding a print statement before this (and erasing coverage) causes coverage to find the line.
                     # Ignore the false positive message.
@@ -765,15 +762,12 @@ class CSSMatch(_DocumentNav):
                 if (util.lower(attr) != util.lower(name)) if not self.is_xml else (attr != name):
                     continue
 
-                value = v
-                break
+                yield v
         else:
             for k, v in self.iter_attributes(el):
                 if util.lower(attr) != util.lower(k):
                     continue
-                value = v
-                break
-        return value
+                yield v
 
     def match_namespace(self, el: bs4.Tag, tag: ct.SelectorTag) -> bool:
         """Match the namespace of the element."""
@@ -802,15 +796,12 @@ class CSSMatch(_DocumentNav):
         match = True
         if attributes:
             for a in attributes:
-                temp = self.match_attribute_name(el, a.attribute, a.prefix)
                 pattern = a.xml_type_pattern if self.is_xml and a.xml_type_pattern else a.pattern
-                if temp is None:
-                    match = False
-                    break
-                value = temp if isinstance(temp, str) else ' '.join(temp)
-                if pattern is None:
-                    continue
-                elif pattern.match(value) is None:
+                for temp in self.match_attribute_name(el, a.attribute, a.prefix):
+                    value = temp if isinstance(temp, str) else ' '.join(temp)
+                    if pattern is None or pattern.match(value) is not None:
+                        break
+                else:
                     match = False
                     break
         return match
